@@ -121,7 +121,7 @@ def gen_target(rng, kind: str) -> dict:
     t = {
         "name": name + suffix,
         "missing_parents": rng.choice([0, 0, 0, 1, 2, 3]),
-        "style": rng.choice(["str", "Path", "tilde", "relative"]),
+        "style": rng.choice(["str", "str", "Path", "Path", "tilde", "tilde", "relative", "relative", "symdotdot"]),
         "pre": rng.choice(["absent", "absent", "file", "file", "earlier", "empty"]),
     }
     if t["missing_parents"]:
@@ -350,6 +350,16 @@ def resolve_target(sb: Sandbox, t: dict, op_index: int):
         ab = os.path.join(sb.cwd, rel)
         os.makedirs(os.path.join(sb.cwd, "rel"), exist_ok=True)
         return rel, ab
+    if style == "symdotdot":
+        # the requested path goes through a directory SYMLINK and then "..": the operating system resolves
+        # <link>/.. to the parent of the link's TARGET, textual normalisation would pick the link's own parent
+        real = os.path.join(sb.out, f"real_{op_index}")
+        os.makedirs(os.path.join(real, "sub"), exist_ok=True)
+        link = os.path.join(sb.out, f"link_{op_index}")
+        if not os.path.lexists(link):
+            os.symlink(os.path.join(real, "sub"), link)
+        ab = os.path.join(real, *parents, t["name"])
+        return os.path.join(link, "..", *parents, t["name"]), ab
     ab = os.path.join(sb.out, *parents, t["name"])
     return (Path(ab) if style == "Path" else ab), ab
 
